@@ -663,22 +663,6 @@ def _sep_rule(ck, F):
         sw = [x for x in enum_switches(pb, NODE)]
         top = max(sw, key=lambda x: len(x[1]))
         entry = top[1].get("ArrayKind")
-        for dot in (True, False):
-            loc = "decimal '.'" if dot else "decimal ','"
-            vals = _sep_locals(F, pb, entry, dot, ["row_separator", "col_separator"])
-            # which local separates rows and which elements is read off the nesting: the push in the outer loop vs the inner loop;
-            # by construction of both printers `row_separator` is meant for rows: check what is actually pushed between rows below
-            for role, helper, local in (("array rows", row_helper, "row_separator"), ("array elements", el_helper, "col_separator")):
-                want = par[helper].get(dot)
-                got = vals.get(local, set())
-                toks = set()
-                for v in got:
-                    toks |= lex.get(chr(v), set())
-                ok = len(got) == 1 and want in toks
-                ck.ob(R, "%s|%s|%s" % (pname, role, loc), ok,
-                      "%s separates %s with %s in a locale with %s, which the lexer reads as %s, but the parser expects %s: the printed array does not parse back"
-                      % (pname, role, [chr(v) for v in got], loc, sorted(toks), want), pb.file, pb.line,
-                      sample={"printer": pname, "role": role, "locale": loc, "char": [chr(v) for v in got], "parser_expects": want})
         # function arguments: the helper must choose the separator from the locale
         hb = F.one(helper_q)
         for dot in (True, False):
@@ -736,35 +720,104 @@ def _sep_rule(ck, F):
                           "the printed call does not parse back to the same arguments" % (pname, var, [chr(v) for v in got] or "an undetermined separator", loc, want, sorted(toks)),
                           f, l, sample={"printer": pname, "arm": var, "locale": loc, "char": [chr(v) for v in got]})
         ck.ob(R, "%s|joined-argument-lists" % pname, nj >= 4, "%s: expected the LAMBDA definition and call arms to join argument lists, found %d joins" % (pname, nj), pb.file, pb.line)
-    # array nesting: rows are separated by the row separator (pushed in the outer loop), elements by the element separator
+    # array nesting: what is emitted between rows (outer loop) is the row separator, what is emitted between the elements
+    # of a row (inner loop, possibly in a helper called from the outer loop) is the element separator, and nothing else
+    # (no extra braces) is emitted inside the loops.  Decided on the values the emitted operands take per locale and on
+    # the loop depth of the emission, not on variable names.
+    from rules_panic import _const_str as _cs2
     for pname, pb, _, _ in printers:
         sw = [x for x in enum_switches(pb, NODE)]
         top = max(sw, key=lambda x: len(x[1]))
         entry = top[1].get("ArrayKind")
         region = arm_region(pb, top[0], entry)
-        pushes = []
-        for bi in sorted(region):
-            t = pb.term(bi)
-            if t["k"] == "call" and (pb.callee_q(t) or "").endswith("String::push") and len(t["args"]) == 2:
-                tgt = pb.ref_target(t["args"][0])
-                tn = pb.local_name(tgt["l"]) if tgt is not None and not place_proj(tgt) else None
-                r = pb.trace(t["args"][1])
-                src = None
-                if r["kind"] == "place":
-                    src = pb.local_name(pb.resolve_place(r["place"])["l"])
-                elif r["kind"] == "const":
-                    src = "const " + str(r["const"].get("v", r["const"].get("d")))
-                else:
-                    p0 = op_place(t["args"][1])
-                    src = pb.local_name(p0["l"]) if p0 is not None else None
-                pushes.append((tn, src))
-        rows_ok = ("matrix_string", "row_separator") in pushes
-        els_ok = ("row_string", "col_separator") in pushes
-        extra = [p for p in pushes if p[1] and p[1].startswith("const")]
-        ck.ob(R, "%s|array nesting" % pname, rows_ok and els_ok and not extra,
-              "%s builds arrays with pushes %s: rows must be joined with row_separator, elements with col_separator and no extra braces "
-              "(the parser reads {a,b;c,d}, not {{a;b},{c;d}})" % (pname, pushes), pb.file, pb.line,
-              sample={"printer": pname, "pushes": [list(map(str, p)) for p in pushes]})
+        for dot in (True, False):
+            loc = "decimal '.'" if dot else "decimal ','"
+            vals = _sep_locals(F, pb, entry, dot, None)
+            em = _emissions(F, pb, sorted(region), vals, 0, _cs2)
+            inside = [(d, v) for d, v in em if d >= 1]
+            depths = sorted({d for d, v in inside})
+            want_row = par[row_helper].get(dot)
+            want_el = par[el_helper].get(dot)
+            ok = len(depths) == 2
+            detail = []
+            if ok:
+                for d, v in inside:
+                    toks = lex.get(chr(v), set())
+                    want = want_row if d == depths[0] else want_el
+                    detail.append((d, chr(v)))
+                    if want not in toks:
+                        ok = False
+            ck.ob(R, "%s|array nesting|%s" % (pname, loc), ok,
+                  "%s builds arrays emitting %s (loop depth, character) in a locale with %s: rows (outer loop) must be separated by the "
+                  "parser's %s, elements (inner loop) by its %s, and nothing else may be emitted inside the loops (the parser reads {a,b;c,d}, "
+                  "not {{a;b},{c;d}})" % (pname, sorted(set((d, chr(v)) for d, v in inside)), loc, want_row, want_el), pb.file, pb.line,
+                  sample={"printer": pname, "locale": loc, "emissions": [[d, chr(v)] for d, v in inside]})
+
+
+def _emissions(F, body, blocks, vals, base_depth, cs, argmap=None, depth=0):
+    """[(loop depth, code point)] of the single characters a printer emits (String::push / push_str / join with a constant
+    or locale-decided operand) in `blocks`, following crate helpers one level with their parameters bound to the values of
+    the caller's arguments."""
+    out = []
+    for bi in blocks:
+        t = body.term(bi)
+        if t["k"] != "call":
+            continue
+        q = body.callee_q(t) or ""
+        last = q.rsplit("::", 1)[-1]
+        d = base_depth + body.loop_depth(bi)
+        if last in ("push", "push_str", "join") and len(t["args"]) == 2 and ("String" in q or "str" in q or "slice" in q or "Join" in q):
+            v = _emitted_value(body, t["args"][1], vals, cs, argmap)
+            if v is not None:
+                out.append((d, v))
+            continue
+        c = body.callee(t)
+        if depth == 0 and c in F.heads and F.has(c) and F.heads[c].get("crate") == "ironcalc_base":
+            hb = F.body(c)
+            if hb.path == body.path or hb.qname.rsplit("::", 1)[-1] in ("stringify", "to_string_moved", "to_string_array_node", "to_string_array_node_moved"):
+                continue
+            am = {}
+            for i, a in enumerate(t["args"]):
+                v = _emitted_value(body, a, vals, cs, argmap)
+                if v is not None:
+                    am[i + 1] = v
+            hblocks = [x for x in range(len(hb.blocks)) if not hb.is_cleanup(x)]
+            out += _emissions(F, hb, hblocks, {}, d, cs, am, depth + 1)
+    return out
+
+
+def _emitted_value(body, a, vals, cs, argmap):
+    lit = cs(body, a)
+    if lit is not None:
+        return ord(lit) if len(lit) == 1 else None
+    k = a.get("k") if isinstance(a, dict) else None
+    if k is not None:
+        v = k.get("v", k.get("d")) if isinstance(k, dict) else None
+        ty = k.get("ty") if isinstance(k, dict) else None
+        if ty == "char" and v is not None:
+            try:
+                return int(v)
+            except (TypeError, ValueError):
+                return None
+        return None
+    pl = op_place(a)
+    if pl is None or place_proj(pl):
+        return None
+    l = pl["l"]
+    # follow plain copies back to a parameter / tracked local
+    for _ in range(6):
+        if argmap is not None and 1 <= l <= body.nargs:
+            return argmap.get(l)
+        vs = vals.get(l)
+        if vs and len(vs) == 1:
+            return next(iter(vs))
+        rv = body.def_rvalue(l)
+        if rv is None or rv["k"] not in ("use", "cast") or op_place(rv["o"]) is None or place_proj(op_place(rv["o"])):
+            if rv is not None and rv["k"] == "use" and rv["o"].get("k") is not None:
+                return _emitted_value(body, rv["o"], vals, cs, argmap)
+            return None
+        l = op_place(rv["o"])["l"]
+    return None
 
 
 def _name_field_of(b, op, NODE):
